@@ -46,11 +46,13 @@ def modelledFns : List Bytes :=
    b!"lt", b!"<", b!"lte", b!"<=", b!"gt", b!">", b!"gte", b!">=", b!"equal", b!"eq", b!"==", b!"neq", b!"!=",
    b!"and", b!"or", b!"not", b!"cond",
    b!"get", b!"getall", b!"set", b!"setall", b!"del", b!"delall", b!"each", b!"at", b!"root", b!"asm",
-   b!"quote", b!"list", b!"nth", b!"size", b!"array?", b!"bool?", b!"map?", b!"nil?", b!"null?", b!"num?", b!"string?"]
+   b!"quote", b!"list", b!"nth", b!"size", b!"array?", b!"bool?", b!"map?", b!"nil?", b!"null?", b!"num?", b!"string?",
+   b!"append", b!"float", b!"include", b!"int", b!"join", b!"replace", b!"reverse", b!"sort", b!"split",
+   b!"string", b!"substr", b!"title", b!"tolower", b!"toupper", b!"trim"]
 
+/-- the clock, the time zone database and the printer to stdout are outside the model -/
 def unmodelledFns : List Bytes :=
-  [b!"append", b!"float", b!"include", b!"inspect", b!"int", b!"join", b!"replace", b!"reverse", b!"sort", b!"split",
-   b!"string", b!"substr", b!"time", b!"time?", b!"title", b!"tolower", b!"toupper", b!"trim", b!"zone"]
+  [b!"inspect", b!"time", b!"time?", b!"zone"]
 
 def isModelled (f : Bytes) : Bool := modelledFns.contains f
 def isRegistered (f : Bytes) : Bool := modelledFns.contains f || unmodelledFns.contains f
@@ -541,6 +543,337 @@ def fnPred (p : Val → Bool) (ev : Arg → M Val) : List Arg → M Val
     pure (.bool (p v))
   | _ => stop .panic
 
+
+/-! ## text and conversion functions: one shape
+
+`tolower toupper title trim replace split substr join int float string` all work the same way: check the
+number of arguments, evaluate the arguments one after the other, each followed by the type assertion the Go
+code makes on it (a failed assertion is a panic BEFORE the next argument is evaluated), then compute the
+result from the asserted values. The values that pass an assertion are scalars (or, for `join`, the strings
+of the list): they are kept as `Tree`s, which cannot hold an address. One record per function
+(`ScalarFn`), one evaluator (`fnScalar`). -/
+
+/-- the type assertion on an evaluated argument -/
+inductive Want where
+  /-- `v.(string)`, else a panic -/
+  | str
+  /-- `asInt(v)`, else a panic -/
+  | int
+  /-- `v.([]any)` all of whose elements are strings, else a panic (`join`); the strings are read at once -/
+  | strs
+  /-- `string`'s format: a non-empty string, else a panic -/
+  | fmt
+  /-- any value (`int`, `float`): a list, map or path converts like nil (no conversion: nil) -/
+  | conv
+  /-- any value (`string`): a path prints as its text; a list or a map is printed by the SEN writer, which is
+  outside this model -/
+  | show
+  deriving DecidableEq
+
+def Val.toTreeS : Val → Tree
+  | .str s => .str s
+  | _ => .null
+
+def Want.admit (h : Heap) : Want → Val → Except Stop (List Tree)
+  | .str, .str s => .ok [.str s]
+  | .str, _ => .error .panic
+  | .int, .int i => .ok [.int i]
+  | .int, _ => .error .panic
+  | .strs, .aref a => if (h.arrAt a).all Val.isStr then .ok ((h.arrAt a).map Val.toTreeS) else .error .panic
+  | .strs, _ => .error .panic
+  | .fmt, .str s => if s.isEmpty then .error .panic else .ok [.str s]
+  | .fmt, _ => .error .panic
+  | .conv, .bool b => .ok [.bool b]
+  | .conv, .int i => .ok [.int i]
+  | .conv, .flt f => .ok [.flt f]
+  | .conv, .str s => .ok [.str s]
+  | .conv, _ => .ok [.null]
+  | .show, .null => .ok [.null]
+  | .show, .bool b => .ok [.bool b]
+  | .show, .int i => .ok [.int i]
+  | .show, .flt f => .ok [.flt f]
+  | .show, .str s => .ok [.str s]
+  | .show, .path p => .ok [.str (pathText p)]
+  | .show, .aref _ => .error .unmodelled
+  | .show, .mref _ => .error .unmodelled
+
+structure ScalarFn where
+  /-- the accepted numbers of arguments (any other: a panic before anything is evaluated) -/
+  arity : Nat → Bool
+  /-- the arguments are evaluated last first (`string` evaluates its format before its value) -/
+  swap : Bool
+  /-- the assertions, in evaluation order, for a call with `n` arguments -/
+  wants : Nat → List Want
+  /-- the result from the number of arguments and the asserted values; an array of texts for `split` -/
+  fin : Nat → List Tree → Except Stop Tree
+
+def wantLoop (ev : Arg → M Val) : List Arg → List Want → List Tree → M (List Tree)
+  | a :: r, w :: ws, acc => do
+    let v ← ev a
+    let h ← getHeap
+    let xs ← liftE (w.admit h v)
+    wantLoop ev r ws (acc ++ xs)
+  | _, _, acc => pure acc
+
+def Tree.toVal : Tree → Val
+  | .null => .null
+  | .bool b => .bool b
+  | .int i => .int i
+  | .flt f => .flt f
+  | .str s => .str s
+  | _ => .null
+
+/-- a scalar result as it is, an array result as a new array -/
+def retTree (t : Tree) : M Val :=
+  match t with
+  | .arr xs => do
+    let c ← alloc (.arr (xs.map Tree.toVal))
+    pure (.aref c)
+  | t => pure t.toVal
+
+def fnScalar (g : ScalarFn) (ev : Arg → M Val) (args : List Arg) : M Val :=
+  if !g.arity args.length then stop .panic
+  else do
+    let acc ← wantLoop ev (if g.swap then args.reverse else args) (g.wants args.length) []
+    let t ← liftE (g.fin args.length acc)
+    retTree t
+
+def asciiOr (s : Bytes) (r : Except Stop Tree) : Except Stop Tree :=
+  if isAscii s then r else .error .unmodelled
+
+/-- asm/tolower.go, asm/toupper.go -/
+def sfCase (f : UInt8 → UInt8) : ScalarFn :=
+  { arity := fun n => n == 1, swap := false, wants := fun _ => [.str],
+    fin := fun _ acc => match acc with
+      | [.str s] => asciiOr s (.ok (.str (s.map f)))
+      | _ => .error .unmodelled }
+
+/-- asm/title.go: `[]rune(s)`, the first rune to upper case -/
+def sfTitle : ScalarFn :=
+  { arity := fun n => n == 1, swap := false, wants := fun _ => [.str],
+    fin := fun _ acc => match acc with
+      | [.str []] => .ok (.str [])
+      | [.str (c :: r)] => asciiOr (c :: r) (.ok (.str (upperB c :: r)))
+      | _ => .error .unmodelled }
+
+/-- asm/trim.go -/
+def sfTrim : ScalarFn :=
+  { arity := fun n => n == 1 || n == 2, swap := false, wants := fun _ => [.str, .str],
+    fin := fun _ acc => match acc with
+      | [.str s] => asciiOr s (.ok (.str (trimBoth isSpaceB s)))
+      | [.str s, .str cut] => asciiOr (s ++ cut) (.ok (.str (trimBoth (fun c => cut.contains c) s)))
+      | _ => .error .unmodelled }
+
+/-- asm/replace.go -/
+def sfReplace : ScalarFn :=
+  { arity := fun n => n == 3, swap := false, wants := fun _ => [.str, .str, .str],
+    fin := fun _ acc => match acc with
+      | [.str s, .str old, .str new] =>
+        if old.isEmpty then asciiOr s (.ok (.str (replaceAll s old new))) else .ok (.str (replaceAll s old new))
+      | _ => .error .unmodelled }
+
+/-- asm/split.go -/
+def sfSplit : ScalarFn :=
+  { arity := fun n => n == 2, swap := false, wants := fun _ => [.str, .str],
+    fin := fun _ acc => match acc with
+      | [.str s, .str sep] =>
+        if sep.isEmpty then asciiOr s (.ok (.arr ((splitOn s sep).map .str))) else .ok (.arr ((splitOn s sep).map .str))
+      | _ => .error .unmodelled }
+
+/-- `s[a:b]` on bytes: a panic unless `0 ≤ a ≤ b ≤ len` -/
+def sliceStr (s : Bytes) (a b : Int) : Except Stop Tree :=
+  if 0 ≤ a ∧ a ≤ b ∧ b ≤ (s.length : Int) then .ok (.str ((s.drop a.toNat).take (b - a).toNat)) else .error .panic
+
+/-- asm/substr.go: a negative start counts from the end (not before the beginning); one to three arguments pass
+the arity test although the second is always used (`args[1]`: index out of range with one argument) -/
+def sfSubstr : ScalarFn :=
+  { arity := fun n => 1 ≤ n && n ≤ 3, swap := false, wants := fun _ => [.str, .int, .int],
+    fin := fun _ acc =>
+      let start (s : Bytes) (i : Int) : Int :=
+        if i < 0 then (if wrap64 ((s.length : Int) + i) < 0 then 0 else wrap64 ((s.length : Int) + i)) else i
+      match acc with
+      | [.str _] => .error .panic
+      | [.str s, .int i] => sliceStr s (start s i) s.length
+      | [.str s, .int i, .int count] =>
+        if count < 0 then .ok (.str [])
+        else if (s.length : Int) < wrap64 (start s i + count) then sliceStr s (start s i) s.length
+        else sliceStr s (start s i) (wrap64 (start s i + count))
+      | _ => .error .unmodelled }
+
+def treeStrs : List Tree → List Bytes
+  | [] => []
+  | .str s :: r => s :: treeStrs r
+  | _ :: r => treeStrs r
+
+/-- asm/join.go: the strings of the list (read when the list has been evaluated), then the separator -/
+def sfJoin : ScalarFn :=
+  { arity := fun n => n == 1 || n == 2, swap := false, wants := fun _ => [.strs, .str],
+    fin := fun n acc =>
+      if n == 1 then .ok (.str (joinWith [] (treeStrs acc)))
+      else match acc.getLast? with
+        | some (.str sep) => .ok (.str (joinWith sep (treeStrs acc.dropLast)))
+        | _ => .error .unmodelled }
+
+/-- asm/int.go: an integer as it is, a float truncated, a text read by `strconv.ParseInt(s, 10, 64)`;
+anything else (and a text that is not an integer) gives nil -/
+def sfInt : ScalarFn :=
+  { arity := fun n => n == 1, swap := false, wants := fun _ => [.conv],
+    fin := fun _ acc => match acc with
+      | [.int i] => .ok (.int i)
+      | [.flt f] => (match f.trunc with | some i => .ok (.int i) | none => .error .unmodelled)
+      | [.str s] => (match parseIntText s with | some i => .ok (.int i) | none => .ok .null)
+      | _ => .ok .null }
+
+/-- the texts `strconv.ParseFloat` is modelled on: an optional sign and one to fifteen decimal digits (exact),
+and texts without any digit that cannot spell an infinity or a NaN (not a number: nil) -/
+def floatOfText (s : Bytes) : Except Stop Tree :=
+  let signed := s.head? = some 45 || s.head? = some 43
+  let body := if signed then s.drop 1 else s
+  if !body.isEmpty && body.all isDigit && body.length ≤ 15 then
+    .ok (.flt (.fin (s.head? = some 45) (natOfDigits body) 0))
+  else if !s.any isDigit && !(body.head? = some 105 || body.head? = some 73 || body.head? = some 110 || body.head? = some 78) then
+    .ok .null
+  else .error .unmodelled
+
+/-- asm/float.go -/
+def sfFloat : ScalarFn :=
+  { arity := fun n => n == 1, swap := false, wants := fun _ => [.conv],
+    fin := fun _ acc => match acc with
+      | [.int i] => .ok (.flt (Flt.ofInt i))
+      | [.flt f] => .ok (.flt f)
+      | [.str s] => floatOfText s
+      | _ => .ok .null }
+
+/-- asm/string.go: `%d`, `%g`, the string itself, `%v` of nil, a boolean or a path; with a format argument
+(`fmt.Sprintf` with any format) the result is outside the model -/
+def sfString : ScalarFn :=
+  { arity := fun n => n == 1 || n == 2, swap := true,
+    wants := fun n => if n == 1 then [.show] else [.fmt, .show],
+    fin := fun n acc =>
+      if n != 1 then .error .unmodelled
+      else match acc with
+        | [.null] => .ok (.str b!"<nil>")
+        | [.bool true] => .ok (.str b!"true")
+        | [.bool false] => .ok (.str b!"false")
+        | [.int i] => .ok (.str (fmtD i))
+        | [.flt f] => (match fmtG f with | some t => .ok (.str t) | none => .error .unmodelled)
+        | [.str s] => .ok (.str s)
+        | _ => .error .unmodelled }
+
+/-! ## list functions -/
+
+/-- asm/reverse.go: a new array -/
+def fnReverse (ev : Arg → M Val) : List Arg → M Val
+  | [a] => do
+    let v ← ev a
+    match v with
+    | .aref c => do
+      let h ← getHeap
+      let c' ← alloc (.arr (h.arrAt c).reverse)
+      pure (.aref c')
+    | _ => stop .panic
+  | _ => stop .panic
+
+/-- asm/append.go: a new array (Go's `append` may reuse spare capacity of the argument's backing array; that
+is not visible through the argument itself, see the registry for the aliasing it can cause) -/
+def fnAppend (ev : Arg → M Val) : List Arg → M Val
+  | [a, b] => do
+    let v ← ev a
+    match v with
+    | .aref c => do
+      let w ← ev b
+      let h ← getHeap
+      let c' ← alloc (.arr (h.arrAt c ++ [w]))
+      pure (.aref c')
+    | _ => stop .panic
+  | _ => stop .panic
+
+/-- the loop of `include` over a list: `m == v1` in order; comparing two lists, two maps or two paths panics -/
+def includeLoop (v1 : Val) : List Val → Except Stop Val
+  | [] => .ok (.bool false)
+  | m :: r =>
+    match goEq m v1 with
+    | none => .error .panic
+    | some true => .ok (.bool true)
+    | some false => includeLoop v1 r
+
+/-- asm/include.go: the SECOND argument is evaluated first -/
+def fnInclude (ev : Arg → M Val) : List Arg → M Val
+  | [a, b] => do
+    let v1 ← ev b
+    let v ← ev a
+    match v with
+    | .aref c => do
+      let h ← getHeap
+      liftE (includeLoop v1 (h.arrAt c))
+    | .str s =>
+      match v1 with
+      | .str t => pure (.bool (containsSub s t))
+      | _ => stop .panic
+    | _ => stop .panic
+  | _ => stop .panic
+
+/-- the `less` of `sort` on two keys (`none` = the path selects nothing = nil): strings with strings, numbers
+with numbers by their exact values (a NaN is less than nothing), anything else is an error -/
+def sortLess (ki kj : Option Val) : Except Stop Bool :=
+  match ki with
+  | some (.str a) => (match kj with | some (.str b) => .ok (bytesLt a b) | _ => .error .panic)
+  | some (.int a) =>
+    (match kj.bind (asFloat true) with | some g => .ok (Flt.lt (.fin (decide (a < 0)) a.natAbs 0) g) | none => .error .panic)
+  | some (.flt f) =>
+    (match kj.bind (asFloat true) with | some g => .ok (Flt.lt f g) | none => .error .panic)
+  | _ => .error .panic
+
+/-- insert `x` into the sorted prefix `pre` (kept REVERSED: its head is the element just before `x`), as
+`insertionSortLessFunc` does: swap down while `less(x, previous)` -/
+def sortInsert (x : Option Val × Val) : List (Option Val × Val) → Except Stop (List (Option Val × Val))
+  | [] => .ok [x]
+  | p :: r =>
+    match sortLess x.1 p.1 with
+    | .error e => .error e
+    | .ok true => (sortInsert x r).map (fun l => p :: l)
+    | .ok false => .ok (x :: p :: r)
+
+def sortRun : List (Option Val × Val) → List (Option Val × Val) → Except Stop (List (Option Val × Val))
+  | [], pre => .ok pre
+  | x :: r, pre =>
+    match sortInsert x pre with
+    | .error e => .error e
+    | .ok pre' => sortRun r pre'
+
+def sortKeys (env : Env) (h : Heap) (fs : List Frag) : List Val → Except Stop (List (Option Val × Val))
+  | [] => .ok []
+  | x :: r =>
+    match pathFirst env h x fs with
+    | .error e => .error e
+    | .ok k => (sortKeys env h fs r).map (fun l => (k, x) :: l)
+
+/-- `sort.Slice` on at most 12 elements is an insertion sort (Go's pdqsort switches to it below 13): exactly
+the comparisons modelled here are made, so exactly these panics occur; longer lists are outside the model -/
+def sortList (env : Env) (h : Heap) (fs : List Frag) (xs : List Val) : Except Stop (List Val) :=
+  if xs.length > 12 then .error .unmodelled
+  else match sortKeys env h fs xs with
+    | .error e => .error e
+    | .ok ks => (sortRun ks []).map (fun l => (l.map (·.2)).reverse)
+
+/-- asm/sort.go: a sorted copy; the second argument must be a path as it stands in the plan (it is applied to
+each element: `$` and `@` both mean the element) -/
+def fnSort (env : Env) (ev : Arg → M Val) : List Arg → M Val
+  | [a, b] => do
+    let v ← ev a
+    match v with
+    | .aref c =>
+      match b with
+      | .path p => do
+        let h ← getHeap
+        let r ← liftE (sortList env h p.frags (h.arrAt c))
+        let c' ← alloc (.arr r)
+        pure (.aref c')
+      | .unk => stop .unmodelled
+      | _ => stop .panic
+    | _ => stop .panic
+  | _ => stop .panic
+
 /-- evaluating a literal: the object itself (code), or a copy of it (documented) -/
 def evalLit (dev : Dev) (v : Val) : M Val :=
   if dev.litAlias || v.isScalar then pure v
@@ -555,6 +888,7 @@ inductive FnKind where
   | sum | arith (op : ArithOp) | mod | cmp (op : CmpOp) | equal | neq | and | or | not | cond
   | get | getall | set | del | each | pathOf (isAt : Bool) | asm | quote | list | nth | size
   | pred (p : Val → Bool)
+  | scalar (g : ScalarFn) | reverse | append | incl | sort
 
 /-- the modelled names -/
 def fnTable : List (Bytes × FnKind) :=
@@ -573,7 +907,12 @@ def fnTable : List (Bytes × FnKind) :=
    (b!"quote", .quote), (b!"list", .list), (b!"nth", .nth), (b!"size", .size),
    (b!"array?", .pred Val.isArr), (b!"bool?", .pred Val.isBool), (b!"map?", .pred Val.isMap),
    (b!"nil?", .pred Val.isNull), (b!"null?", .pred Val.isNull), (b!"num?", .pred Val.isNum),
-   (b!"string?", .pred Val.isStr)]
+   (b!"string?", .pred Val.isStr),
+   (b!"tolower", .scalar (sfCase lowerB)), (b!"toupper", .scalar (sfCase upperB)), (b!"title", .scalar sfTitle),
+   (b!"trim", .scalar sfTrim), (b!"replace", .scalar sfReplace), (b!"split", .scalar sfSplit),
+   (b!"substr", .scalar sfSubstr), (b!"join", .scalar sfJoin), (b!"int", .scalar sfInt),
+   (b!"float", .scalar sfFloat), (b!"string", .scalar sfString),
+   (b!"reverse", .reverse), (b!"append", .append), (b!"include", .incl), (b!"sort", .sort)]
 
 def lookupKind : List (Bytes × FnKind) → Bytes → Option FnKind
   | [], _ => none
@@ -613,6 +952,11 @@ def evalKind (env : Env) (ev : Arg → Val → M Val) (root at_ : Val) (k : FnKi
   | .nth => fnNth e args
   | .size => fnSize e args
   | .pred p => fnPred p e args
+  | .scalar g => fnScalar g e args
+  | .reverse => fnReverse e args
+  | .append => fnAppend e args
+  | .incl => fnInclude e args
+  | .sort => fnSort env e args
 
 /-- dispatch by name -/
 def evalFn (env : Env) (ev : Arg → Val → M Val) (root at_ : Val) (f : Bytes) (args : List Arg) : M Val :=
